@@ -115,7 +115,7 @@ func init() {
 func runC12(c *Ctx) {
 	rng := c.Rng
 	n := c.N(250, 3000)
-	maxOps := c.N(40, 150)
+	maxOps := c.Bound(40, 150)
 	dir := "/sys/firmware/efi/efivars"
 	type vdef struct {
 		name   string
